@@ -931,7 +931,14 @@ impl<'a, Input: InputIndexer> MatchAttempter<'a, Input> {
 
                     Insn::EnterLoop(fields) => {
                         // Entering a loop, not re-entering it.
-                        self.s.loops.mat(fields.loop_id as usize).iters = 0;
+                        // Save the loop data before resetting the counter, so that
+                        // backtracking out of this entry restores it.
+                        let loop_data = self.s.loops.mat(fields.loop_id as usize);
+                        self.bts.push(BacktrackInsn::SetLoopData {
+                            id: fields.loop_id,
+                            data: *loop_data,
+                        });
+                        loop_data.iters = 0;
                         match self.run_loop(fields, pos, ip) {
                             Some(next_ip) => {
                                 ip = next_ip;
